@@ -711,8 +711,20 @@ def main(argv):
     if not a.prop:
         ap.error('property id required')
     if a.prop == 'C11':
+        # two engines: the Verus unit `fmt` (text of the zone symbols, sign/padding glue, default-width rule) and the Kani rows
         import kani_engine
-        return kani_engine.run('C11', a.tier, seed)
+        rc_v = check_property('C11', a.tier, seed, a.keep)
+        evp = os.path.join(VERIF, 'evidence', 'C11.json')
+        ev_v = json.load(open(evp)) if os.path.exists(evp) else None
+        rc_k = kani_engine.run('C11', a.tier, seed)
+        if ev_v and os.path.exists(evp):
+            ev = json.load(open(evp))
+            ev['coverage']['verus_part'] = {k: ev_v['coverage'].get(k) for k in ('obligations', 'discharged', 'functions', 'checker_cmd', 'normalisations', 'extracted_items', 'undecided', 'modular_closure', 'back_end')}
+            ev['assumptions'] = sorted(set(ev.get('assumptions', [])) | set(ev_v.get('assumptions', [])))
+            ev['violations'] = ev.get('violations', 0) + ev_v.get('violations', 0)
+            ev['wall_s'] = round(ev.get('wall_s', 0) + ev_v.get('wall_s', 0), 2)
+            json.dump(ev, open(evp, 'w'), indent=1)
+        return 1 if 1 in (rc_v, rc_k) else (2 if 2 in (rc_v, rc_k) else 0)
     rc = check_property(a.prop, a.tier, seed, a.keep)
     if rc == 0 and a.tier == 'thorough' and not os.environ.get('VERIF_REPO'):
         # thorough: also replay the seeded changes of this property against a scratch copy (self-test of the contracts);
